@@ -1,5 +1,5 @@
 """C16 - parsing work grows linearly with input size - no backtracking blow-up."""
-import time
+import os, time
 from lib import *
 from progsuite import *
 
@@ -56,11 +56,26 @@ def ticks(text):
     return int(io.rsplit(US, 1)[1]), io
 
 
+def lex_seconds(text, limit=25):
+    """CPU time of lexing text with the implementation, in a killable subprocess (CPU time: robust against machine load)"""
+    import subprocess, sys
+    env = dict(os.environ, PYTHONPATH="/repo", PYTHONHASHSEED="0")
+    try:
+        p = subprocess.run([sys.executable, os.path.join(os.path.dirname(os.path.dirname(os.path.abspath(__file__))), "lextime.py")],
+                           input=text, capture_output=True, text=True, timeout=limit, env=env)
+    except subprocess.TimeoutExpired:
+        return "TIMEOUT", float(limit)
+    try:
+        return "ok", float(p.stdout.split()[0])
+    except Exception:
+        return "ok", 0.0       # the lexer raised: not a timing matter (C06/C09 look at that)
+
+
 def run(ctx, b, broken):
     su = Suite(ctx, b, broken, "C16")
     ks = [4, 8, 16, 32] if ctx.tier == "quick" else [4, 8, 16, 32, 64, 128]
     ctx.notes["rule"] = f"25 scalable families (k-fold repetition of each declaration/statement kind, depth-k nesting of each recursive construct) at k in {ks}; token-consumption counts of implementation and model must be equal and may at most double (x2.6) when k doubles; adversarial literal families for the lexer's regexes up to 20k characters under a wall-clock margin; non-trivial = every family point; distinct by (family, k)"
-    ctx.notes["thresholds"] = {"doubling_ratio_max": 2.6, "lexer_seconds_per_20k_chars": 3.0}
+    ctx.notes["thresholds"] = {"doubling_ratio_max": 2.6, "lexer_seconds_per_20k_chars": 3.0, "lexer_seconds_per_400_chars": 1.0}
     # known super-linear families: replay, report as known findings if still super-linear
     for f in ctx.findings:
         famname = f.get("family")
@@ -91,25 +106,28 @@ def run(ctx, b, broken):
             ctx.sample({"family": name, "k": ks[-1], "text": fam(ks[0])[name][:120]})
     # lexer regex families (wall clock, wide margin)
     from lexcorr import impl_lex
-    n = 20000
-    lits = {
-        "escape-run-string": '"' + "\\\\" * (n // 2) + '"', "escape-run-unterminated": '"' + "\\x41" * (n // 4),
-        "digit-run": "1" * n, "digit-run-bad-suffix": "0" * n + "9", "float-run": "1" * n + "." + "2" * 10 + "e",
-        "hex-escape-char": "'" + "\\x" + "f" * n + "'", "decimal-escape": "'\\" + "7" * n + "'", "unterminated-quote": "'" + "a" * n,
-        "bad-string-escape": '"' + "a" * n + "\\q" + '"', "ident-run": "a" * n, "bad-char-const": "'" + "ab" * (n // 2) + "'",
-        "nested-quotes": "'\\" * (n // 2),
-    }
-    for name, text in lits.items():
-        t0 = time.time()
-        out = impl_lex(text)
-        dt = time.time() - t0
-        ctx.evaluations += 1
-        ctx.count("lexer-family:" + name)
-        ctx.nontriv(("lex", name))
-        if out == "TIMEOUT" or dt > 3.0:
-            kf = [f for f in ctx.findings if f.get("lexfamily") == name]
-            if kf:
-                ctx.known(kf[0]["id"], kf[0]["what"])
-                continue
-            su.violation(text[:200] + f"... ({len(text)} chars)", f"lexing the {len(text)}-character family {name} took {dt:.1f}s", {"family": name})
+    def lits_of(n):
+        return {
+            "escape-run-string": '"' + "\\\\" * (n // 2) + '"', "escape-run-unterminated": '"' + "\\x41" * (n // 4),
+            "digit-run": "1" * n, "digit-run-bad-suffix": "0" * n + "9", "float-run": "1" * n + "." + "2" * 10 + "e",
+            "hex-escape-char": "'" + "\\x" + "f" * n + "'", "decimal-escape": "'\\" + "7" * n + "'", "unterminated-quote": "'" + "a" * n,
+            "bad-string-escape": '"' + "a" * n + "\\q" + '"', "ident-run": "a" * n, "bad-char-const": "'" + "ab" * (n // 2) + "'",
+            "nested-quotes": "'\\" * (n // 2),
+            "hexfloat-run": "0x" + "f" * n + ".p", "exponent-run": "1e" + "1" * n + "x", "suffix-run": "1" + "uUlL" * (n // 4),
+            "wide-prefix-run": "L" * n + "'", "dots": "." * n, "string-concat-run": '"a" ' * (n // 4), "line-directive-run": "#line " + "1" * n + ' "f"\n',
+            "pragma-run": "#pragma " + "x " * (n // 2) + "\n",
+        }
+    # a few hundred characters must never take seconds; 20k characters get a wide linear margin
+    for n, limit in ((400, 1.0), (20000, 3.0)):
+        for name, text in lits_of(n).items():
+            out, dt = lex_seconds(text)
+            ctx.evaluations += 1
+            ctx.count(f"lexer-family-{n}:" + name)
+            ctx.nontriv(("lex", name, n))
+            if out == "TIMEOUT" or dt > limit:
+                kf = [f for f in ctx.findings if f.get("lexfamily") == name and n >= f.get("min_chars", 0)]
+                if kf:
+                    ctx.known(kf[0]["id"], kf[0]["what"])
+                    continue
+                su.violation(text[:200] + f"... ({len(text)} chars)", f"lexing the {len(text)}-character family {name} took {dt:.1f}s (limit {limit}s)", {"family": name, "chars": n})
     su.finish()
